@@ -463,6 +463,13 @@ func (x *X) envAt(fr *frame, li *loopInfo, phiVals map[*ssa.Phi]Val) *Env {
 					}
 				}
 			case *ssa.DebugRef:
+				if in.IsAddr {
+					if v, ok := fr.vals[in.X]; ok {
+						if name := debugName(in); name != "" {
+							env.vars["&"+name] = TV{v, in.X.Type()}
+						}
+					}
+				}
 				if !in.IsAddr {
 					if v, ok := fr.vals[in.X]; ok {
 						if name := debugName(in); name != "" {
